@@ -86,7 +86,7 @@ Definition run_shape (sh : shape) (o : oracle) (b : bytes) : outcome :=
       | Panic => OPanic
       end
   | SAtt =>
-      match decAtt (option bytes) (fun ver => odec o total ver false) b with
+      match decAtt (option bytes) (fun ver => odec o total ver false) false b with
       | Ok (ver, idx, Some pb) => OOk ver false idx (total - N.of_nat (List.length pb))
       | Ok (_, _, None) => OMissing
       | Err _ => OErr
@@ -256,19 +256,19 @@ Record scase := { s_id : N; s_duty : dutytype; s_prefix : packed;
 Record ucase := { u_id : N; u_duty : dutytype; u_prefix : packed;
                   u_oracle : list (orow utype); u_expect : option utype }.
 
-(* [val]: the code under test validates decoded values before returning them *)
-Definition check_scase (val : bool) (c : scase) : list N :=
-  let r := sdispatch N (sdec_o (s_oracle c)) (s_duty c) (unpack (s_prefix c)) in
-  let r := if val then validated N (fun v => negb (v =? 1)) r else r in
+(* the code under test validates decoded values before returning them (commit 83a4e02) *)
+Definition check_scase (c : scase) : list N :=
+  let r := validated N (fun v => negb (v =? 1))
+             (sdispatch N (sdec_o (s_oracle c)) (s_duty c) (unpack (s_prefix c))) in
   match r, s_expect c with
   | None, None => []
   | Some (t, 0), _ => [s_id c]
   | Some (t, _), Some t' => if stype_eqb t t' then [] else [s_id c]
   | _, _ => [s_id c]
   end.
-Definition check_ucase (val : bool) (c : ucase) : list N :=
-  let r := udispatch N (udec_o (u_oracle c)) (u_duty c) (unpack (u_prefix c)) in
-  let r := if val then validated N (fun v => negb (v =? 1)) r else r in
+Definition check_ucase (c : ucase) : list N :=
+  let r := validated N (fun v => negb (v =? 1))
+             (udispatch N (udec_o (u_oracle c)) (u_duty c) (unpack (u_prefix c))) in
   match r, u_expect c with
   | None, None => []
   | Some (t, 0), _ => [u_id c]
